@@ -21,7 +21,7 @@ Unsafe == T.pres \in {"key_unsafe", "include_list_unsafe"}
 LDocs == [i \in DOMAIN T.docs |-> Parse(SDofJ(T.docs[i]), ~Unsafe)]
 LOut == NodeOfJ(T.out)
 LPlain == NodeOfJ(T.plain)
-Model == CASE T.pres = "key" -> BuildUnderKey(T.key, LDocs)
+Model == CASE T.pres \in {"key", "key_same"} -> BuildUnderKey(T.key, LDocs)
            [] T.pres = "key_unsafe" -> BuildUnderUnsafeKey(T.key, LDocs)
            [] T.pres = "include_list_unsafe" -> Build("include_list", LDocs)
            \* a file named more than once is the same document again (the harness writes ONE file per distinct document)
@@ -35,7 +35,7 @@ Same(a, b) == IF IsErr(a) THEN IsErr(b) /\ a.err = b.err ELSE ~IsErr(b) /\ a = b
 SameData(a, b) == IF IsErr(a) THEN IsErr(b) /\ a.err = b.err ELSE ~IsErr(b) /\ DataOf(a) = DataOf(b)
 
 Compare == IF ~Same(ModelPlain, LPlain) THEN "plain"
-           ELSE IF IsErr(Model) /\ T.pres \in {"key", "key_unsafe"} /\ IsErr(LOut) THEN "ok"     \* (error classes under a key are wrapped)
+           ELSE IF IsErr(Model) /\ T.pres \in {"key", "key_same", "key_unsafe"} /\ IsErr(LOut) THEN "ok"     \* (error classes under a key are wrapped)
            ELSE IF Same(Model, LOut) THEN "ok" ELSE IF SameData(Model, LOut) THEN "flags" ELSE "data"
 
 \* the property on what the LIBRARY produced: the delivered form builds what the plain sources build
